@@ -327,8 +327,11 @@ theorem runM_effUpdateMintQ_bind {β : Type} (id : Nat) (st : MQState) (f : DbRe
 /-- Lightning state after a scripted payment / status call. -/
 def lnPop (ln : LN) (c : LnAns → LnCall) : LN := record (popScript ln).1 (c (popScript ln).2)
 
+/-- The scripted backend's `FeeReserve`: ceil(1%) or 0. -/
+def lnFee (ln : LN) (a : UInt64) : UInt64 := if ln.feePct then (a + 99) / 100 else 0
+
 theorem runM_lnFeeReserve_bind {β : Type} (a : UInt64) (f : UInt64 → PM β) (db : DB) (ln : LN) :
-    runM (eff (.lnFeeReserve a) >>= f) (db, ln) = runM (f (if ln.feePct then (a + 99) / 100 else 0)) (db, ln) := by
+    runM (eff (.lnFeeReserve a) >>= f) (db, ln) = runM (f (lnFee ln a)) (db, ln) := by
   rw [runM_eff_bind]; rfl
 theorem runM_lnSendPayment_bind {β : Type} (inv : Nat) (maxFee : UInt64) (f : LnAns → PM β) (db : DB) (ln : LN) :
     runM (eff (.lnSendPayment inv maxFee) >>= f) (db, ln) =
@@ -375,5 +378,21 @@ theorem runM_lnCreateInvoice_bind {β : Type} (a : UInt64) (f : Option Nat → P
       repeat' split at hx
       all_goals cases hx
   rw [this]
+
+end Gonuts.Model.Mint
+
+namespace Gonuts.Model.Mint
+
+theorem runM_effUpdateMeltQ_bind {β : Type} (id pre : Nat) (st : LQState) (f : DbRes Unit → PM β) (db : DB) (ln : LN) :
+    runM (eff (.updateMeltQuote id pre st) >>= f) (db, ln) =
+      if db.meltQ.any (·.id == id) then runM (f (.ok ())) ({ db with meltQ := updMeltQ db.meltQ id pre st }, ln)
+      else runM (f (.error .notUpdated)) (db, ln) := by
+  rw [runM_eff_bind]; simp only [stepDL, execDb]
+  by_cases h : (db.meltQ.any (·.id == id)) = true <;> simp [h]
+
+theorem runM_effRemovePending_bind {β : Type} (ys : List Nat) (f : DbRes Unit → PM β) (db : DB) (ln : LN) :
+    runM (eff (.removePending ys) >>= f) (db, ln) =
+      runM (f (.ok ())) ({ db with pending := db.pending.filter (fun r => !ys.contains r.y) }, ln) := by
+  rw [runM_eff_bind]; rfl
 
 end Gonuts.Model.Mint
